@@ -3,6 +3,7 @@
 mod c17;
 mod c20;
 mod grpcc;
+mod node;
 mod store;
 mod util;
 
@@ -19,6 +20,7 @@ fn main() {
     let r = match sub.as_str() {
         "c20" => c20::run(&args),
         "store-session" => store::run(&args),
+        "node-session" => node::run(&args),
         "c17-func" => c17::run(&args),
         "grpc-client" => grpcc::run(&args),
         _ => {
